@@ -69,6 +69,7 @@ impl Prop for C11 {
             controllers: 1,
             tree,
             plain488: false,
+            no_mav: false,
         };
         // one run in five hands in a response buffer that still holds an earlier response
         let mode = if rng.chance(1, 5) {
